@@ -573,6 +573,9 @@ func RandomOp(r *hx.Rng, d Desc, kinds []string) OpDesc {
 	case "weld":
 		o.Attr = pickAttr(r, d, 3, "Position")
 		o.Decimal = hx.Pick(r, []int{0, 0, 1, 2, 3, -1, -1, -2, -2})
+		if preferDecimal != 99 && r.Chance(3, 4) {
+			o.Decimal = preferDecimal
+		}
 	case "set_indices":
 		nv := d.NVerts()
 		n := 0
